@@ -1,8 +1,201 @@
-import FerrousSpec.Model.Keyspace
+/-
+  C01 — string and key-space commands follow the Redis reference semantics.
+
+  `KS.step Quirks.spec` is the reference semantics (Model/Keyspace.lean); the same function is
+  the model of the code (no quirk switch is on for these commands on the current tree), tied to
+  the server by the correspondence run of lib/c01.py.  Property theorems only.
+-/
+import FerrousSpec.Proofs.KsLaws
+set_option linter.unusedSimpArgs false
 namespace Ferrous.C01
 open Ferrous Ferrous.KS
 
-/-- placeholder law (the real theorem set follows): GET after SET returns the value set -/
-theorem get_set_example : (KS.step Quirks.spec emptyStore 0 0 [[83,69,84],[107],[118]] none).2 = ok := by rfl
+/-- One client operation: database index, time, command words, observed random outcome. -/
+structure Op where
+  db : Nat
+  now : Nat
+  cmd : List Bytes
+  obs : Option (List Bytes)
+
+def run (q : Quirks) (s : Store) (ops : List Op) : Store :=
+  ops.foldl (fun s o => (step q s o.db o.now o.cmd o.obs).1) s
+
+/-- (1) Failure atomicity, for every command of the machine and every argument list: a command
+    answered with an error leaves the dataset exactly as it was (up to dropping entries that had
+    already expired, which no command can see). -/
+theorem refused_leaves_dataset (q : Quirks) (s : Store) (i now : Nat) (cmd : List Bytes) (obs : Option (List Bytes))
+    (h : isErr (step q s i now cmd obs).2 = true) :
+    (step q s i now cmd obs).1 = s ∨ (step q s i now cmd obs).1 = setDb s i (purge now (getDb s i)) :=
+  step_atomic q s i now cmd obs h
+
+/-- (2) Typing invariant over all histories: after any sequence of commands from the empty server,
+    in every database keys are unique, set members and hash fields are unique, and no empty
+    list/set/hash is stored. -/
+theorem reachable_wellformed (q : Quirks) (ops : List Op) : StoreOk (run q emptyStore ops) := by
+  suffices h : ∀ s, StoreOk s → StoreOk (run q s ops) from h _ StoreOk_empty
+  induction ops with
+  | nil => intro s hs; exact hs
+  | cons o r ih => intro s hs; exact ih _ (step_pres q s o.db o.now o.cmd o.obs hs)
+
+/-! ### Laws that pin the reference semantics down (all databases `db`, all keys and values) -/
+
+/-- GET after SET returns the value set. -/
+theorem get_set (db : Db) (now : Nat) (k v : Bytes) :
+    (cmdSet db now [k, v]).2 = ok ∧ (cmdGet (cmdSet db now [k, v]).1 [k]).2 = bulk v := by
+  simp [cmdSet, parseSetOpts, cmdGet, lookup_insert_self]
+
+/-- SET does not touch any other key. -/
+theorem set_frames_other_keys (db : Db) (now : Nat) (k v k' : Bytes) (h : k' ≠ k) :
+    lookup (cmdSet db now [k, v]).1 k' = lookup db k' := by
+  simp [cmdSet, parseSetOpts, lookup_insert_other _ _ _ _ h]
+
+/-- SET clears a time-to-live; SET … EX keeps none but its own. -/
+theorem set_clears_ttl (db : Db) (now : Nat) (k v : Bytes) :
+    lookup (cmdSet db now [k, v]).1 k = some { val := .str v, deadline := none } := by
+  simp [cmdSet, parseSetOpts, lookup_insert_self]
+
+/-- SET NX writes iff the key is absent; SET XX iff it is present; otherwise nil and no change. -/
+theorem set_nx_xx (db : Db) (now : Nat) (k v : Bytes) :
+    ((lookup db k).isSome = true → cmdSet db now [k, v, [78, 88]] = (db, nil)) ∧
+    ((lookup db k).isSome = false → cmdSet db now [k, v, [88, 88]] = (db, nil)) := by
+  constructor <;> intro h <;>
+    simp [cmdSet, parseSetOpts, upperBytes, upper, h]
+
+/-- SETNX is SET NX with an integer reply. -/
+theorem setnx_eq_set_nx (db : Db) (now : Nat) (k v : Bytes) :
+    (cmdSetnx db [k, v]).1 = (cmdSet db now [k, v, [78, 88]]).1 := by
+  cases h : (lookup db k).isSome <;>
+    simp [cmdSetnx, cmdSet, parseSetOpts, upperBytes, upper, h, mkStr]
+
+/-- APPEND concatenates and returns the new length; the time-to-live survives. -/
+theorem append_is_concat (db : Db) (k b v : Bytes) (d : Option Nat)
+    (h : lookup db k = some ⟨.str b, d⟩) :
+    cmdAppend db [k, v] = (insert db k ⟨.str (b ++ v), d⟩, nat (b.length + v.length)) := by
+  simp [cmdAppend, h]
+
+/-- STRLEN is the length of what GET returns (0 for a missing key). -/
+theorem strlen_eq_length_get (db : Db) (k b : Bytes) (d : Option Nat) (h : lookup db k = some ⟨.str b, d⟩) :
+    (cmdStrlen db [k]).2 = nat b.length ∧ (cmdGet db [k]).2 = bulk b := by
+  simp [cmdStrlen, cmdGet, h]
+
+/-- GETRANGE 0 -1 is the whole string. -/
+theorem getrange_full (b : Bytes) : slice b (getrangeSel b.length 0 (-1)) = b := by
+  by_cases h : b.length = 0
+  · have : b = [] := List.length_eq_zero_iff.mp h
+    subst this; simp [slice, getrangeSel]
+  · have hsel : getrangeSel b.length 0 (-1) = some (0, b.length - 1) := by
+      unfold getrangeSel
+      simp only []
+      repeat' split
+      all_goals first | omega | (simp; omega)
+    rw [hsel]
+    simp only [slice, List.drop_zero]
+    apply List.take_of_length_le
+    omega
+
+/-- GETRANGE never reads outside the string: the selected window lies within `[0, len)`, for all
+    integer bounds (this is the statement whose violation crashed the pinned server). -/
+theorem getrange_in_bounds (len : Nat) (s e : Int) (a c : Nat) (h : getrangeSel len s e = some (a, c)) :
+    a ≤ c ∧ c < len := by
+  unfold getrangeSel at h
+  simp only [] at h
+  repeat' split at h
+  all_goals first | (simp at h; done) | (simp at h; omega)
+
+/-- INCRBY adds; the result is stored in canonical decimal and the time-to-live survives; an
+    increment that leaves the i64 range is refused and changes nothing. -/
+theorem incrby_add (db : Db) (k b : Bytes) (d : Option Nat) (cur delta : Int)
+    (h : lookup db k = some ⟨.str b, d⟩) (hp : parseInt b = some cur) :
+    incrBy db k delta =
+      if cur + delta < i64Min ∨ cur + delta > i64Max then (db, err)
+      else (insert db k ⟨.str (intDigits (cur + delta)), d⟩, int (cur + delta)) := by
+  simp [incrBy, h, hp]
+
+/-- DECRBY n is INCRBY −n, and DECRBY by i64::MIN (whose negation does not exist) is refused. -/
+theorem decrby_eq_incrby_neg (db : Db) (k n : Bytes) (v : Int) (hp : parseInt n = some v) :
+    cmdIncrbyDecrby db (-1) [k, n] = if v = i64Min then (db, err) else incrBy db k (-v) := by
+  simp only [cmdIncrbyDecrby, hp]
+  split
+  · rename_i h; simp [h.2]
+  · rename_i h
+    have : ¬ v = i64Min := fun hv => h ⟨by decide, hv⟩
+    simp [this]
+
+/-- RENAME moves the value together with its time-to-live; the old name is gone. -/
+theorem rename_moves_value_and_ttl (db : Db) (a b : Bytes) (e : Entry) (hdb : DbOk db)
+    (hab : a ≠ b) (h : lookup db a = some e) :
+    (cmdRename db false [a, b]).2 = ok ∧
+    lookup (cmdRename db false [a, b]).1 b = some e ∧
+    lookup (cmdRename db false [a, b]).1 a = none := by
+  simp [cmdRename, h, hab, lookup_insert_self]
+  rw [lookup_insert_other _ _ _ _ hab, lookup_erase_self _ _ hdb.1]
+
+/-- DEL removes the key: EXISTS then counts it as absent. -/
+theorem del_then_exists (db : Db) (k : Bytes) (hdb : DbOk db) :
+    (cmdExists (cmdDel db [k]).1 [k]).2 = int 0 := by
+  unfold cmdDel
+  simp only [List.isEmpty_cons, Bool.false_eq_true, if_false, delKeys]
+  split
+  · simp [delKeys, cmdExists, lookup_erase_self _ _ hdb.1, nat, int]
+  · rename_i h
+    simp at h
+    simp [delKeys, cmdExists, h, nat, int]
+
+/-- MGET is the list of per-key GETs, with nil for keys that are missing or hold another type. -/
+theorem mget_eq_map_get (db : Db) (ks : List Bytes) (h : ks ≠ []) :
+    (cmdMget db ks).2 = .array (ks.map fun k => match (cmdGet db [k]).2 with
+      | .bulk b => .bulk b
+      | _ => nil) := by
+  have : ks.isEmpty = false := by cases ks <;> simp at h ⊢
+  simp only [cmdMget, this]
+  simp only [Bool.false_eq_true, if_false]
+  congr 1
+  apply List.map_congr_left
+  intro k _
+  simp only [cmdGet]
+  cases hl : lookup db k with
+  | none => simp [nil, bulk]
+  | some e =>
+    obtain ⟨v, d⟩ := e
+    cases v <;> simp [nil, bulk, wrongType]
+
+/-- RANDOMKEY, when the relation accepts the observed outcome, returned a key that exists. -/
+theorem randomkey_mem (db : Db) (obs : Option (List Bytes)) (k : Bytes)
+    (h : (cmdRandomkey db [] obs).2 = bulk k) : (lookup db k).isSome = true := by
+  unfold cmdRandomkey at h
+  simp only [List.isEmpty_nil, Bool.not_true, Bool.false_eq_true, if_false] at h
+  split at h
+  · rename_i k' heq
+    split at h
+    · rename_i hk
+      simp [bulk] at h
+      subst h
+      exact hk
+    · simp [bulk] at h
+  · split at h <;> simp [bulk, nil] at h
+
+/-- FLUSHDB empties the selected database only; FLUSHALL empties all of them. -/
+theorem flushdb_only_selected (q : Quirks) (s : Store) (i j now : Nat) (hij : j ≠ i) :
+    getDb (step q s i now [[70, 76, 85, 83, 72, 68, 66]] none).1 j = getDb s j := by
+  have hname : String.ofList ((upperBytes [70, 76, 85, 83, 72, 68, 66]).map fun b => Char.ofNat b) = "FLUSHDB" := by decide
+  simp only [step, hname]
+  simp [stepDb, getDb, setDb, List.getD, List.getElem?_set, hij.symm]
+
+theorem flushall_all (q : Quirks) (s : Store) (i j now : Nat) :
+    getDb (step q s i now [[70, 76, 85, 83, 72, 65, 76, 76]] none).1 j = [] := by
+  have hname : String.ofList ((upperBytes [70, 76, 85, 83, 72, 65, 76, 76]).map fun b => Char.ofNat b) = "FLUSHALL" := by decide
+  simp only [step, hname]
+  simp [getDb, List.getD]
+  cases h : s[j]? <;> simp [h]
+
+/-! ### Non-vacuity -/
+
+example : isErr (step Quirks.spec emptyStore 0 0 [[71, 69, 84]] none).2 = true := by rfl
+example : DbOk [([107], ⟨.str [118], none⟩), ([108], ⟨.list [[97]], some 5⟩)] := by
+  refine ⟨by decide, ?_⟩
+  intro p hp
+  simp at hp
+  rcases hp with h | h <;> subst h <;> simp [valOk]
+example : getrangeSel 3 0 (-10) = some (0, 0) ∧ getrangeSel 3 (-2) (-1) = some (1, 2) ∧ getrangeSel 3 (-1) (-3) = none := by decide
 
 end Ferrous.C01
